@@ -54,3 +54,22 @@ pub fn to_schema_mut(raw: &RawSchema) -> SchemaMut {
 		.collect();
 	SchemaMut::from_nodes(nodes)
 }
+
+/// The same graph, obtained by editing (through `nodes_mut`) a schema parsed from another
+/// document - what such a schema reports afterwards (its JSON, hence a container header) must
+/// describe the edited graph, not the document it once came from.
+pub fn to_schema_mut_edited(raw: &RawSchema) -> SchemaMut {
+	let mut parsed: SchemaMut = "\"null\"".parse().expect("the document \"null\" parses");
+	let mut built = to_schema_mut(raw);
+	std::mem::swap(parsed.nodes_mut(), built.nodes_mut());
+	parsed
+}
+
+/// `to_schema_mut`, or `to_schema_mut_edited` for one case in three (`sel` = length of the case line)
+pub fn to_schema_mut_sel(raw: &RawSchema, sel: usize) -> SchemaMut {
+	if sel % 3 == 1 {
+		to_schema_mut_edited(raw)
+	} else {
+		to_schema_mut(raw)
+	}
+}
